@@ -86,15 +86,28 @@ def _r1(chk, repo):
     dist = repo.cls("cuqi/distribution/_distribution.py:Distribution")
     for ci, fname in ((jd, "_parse_args_add_to_kwargs"), (dist, "_parse_args_add_to_kwargs")):
         f = repo.method(ci, fname)[1]
-        v, g = cfgv(repo, ci, f)
-        st = nodes_matching(g, "kwargs[$keys[$i]]=$arg")
+        from ..flow import Expander
+        from ..canon import _SymOrder
+        v = canon_fn(repo, ci, f, 1)
+        ex = Expander(v)
+        g = ex.cfg
+
+        def xt(e, at):       # test / expression with every temporary replaced by its definition, in canonical operand order
+            return pn(_SymOrder().visit(ex.expand(e, at, stop=frozenset({"kwargs", "args"}))))
+        st = [n for n in g.nodes if n.kind == "stmt" and isinstance(n.ast, ast.Assign) and isinstance(n.ast.targets[0], ast.Subscript)
+              and path_of(n.ast.targets[0].value) == "kwargs"]
         rec = len(st) == 1
-        ok = rec and guarded(g, st[0][0], "$keys[$i] in kwargs", "F", st[0][1])
+        ok = False
+        if rec:
+            K = xt(st[0].ast.targets[0].slice, st[0])
+            ok = any(lab == "F" and xt(t.ast, t) == pn(f"{K} in kwargs") for t, lab in g.guards_of(st[0]))
         chk.decide("C01-R1", f"{ci.qual}.{fname}/double", ok, rec, site(repo, f), "a variable given positionally and by keyword is refused",
                    "a variable can be passed both positionally and by keyword", f)
         if ci is dist:
             cv = func_params(f)[1]
-            ok = rec and (guarded(g, st[0][0], f"len({cv})+1<len(args)", "F") or guarded(g, st[0][0], f"len(args)<=len({cv})+1", "T"))
+            gs = [(xt(t.ast, t), lab) for t, lab in g.guards_of(st[0])] if rec else []
+            ok = rec and any((tx in (pn(f"len({cv})+1<len(args)"), pn(f"1+len({cv})<len(args)")) and lab == "F") or
+                             (tx in (pn(f"len(args)<=len({cv})+1"), pn(f"len(args)<=1+len({cv})")) and lab == "T") for tx, lab in gs)
             chk.decide("C01-R1", f"{dist.qual}._parse_args_add_to_kwargs/arity", ok, rec, site(repo, f), "too many positional values are refused",
                        "too many positional values are accepted", f)
     f = repo.method(dist, "logd")[1]
@@ -235,6 +248,14 @@ def _r3_r4(chk, repo):
         if any(formB in t for t, _ in S):
             b = {}
         rec = rec or any("for _k0 in self._densities]" in t for t, _ in S)
+    if b is None:      # ... or appended one by one in a loop over all factors (the factor's parameter names may be held in a temporary)
+        for pats in (["for: $d : self._densities", "$lst.append($d(**" + SELECT + "))"],
+                     ["for: $d : self._densities", "$pn=$d.get_parameter_names()", "$lst.append($d(**{_k0:_k1 for _k0,_k1 in kwargs.items() if _k0 in $pn}))"],
+                     ["for: ($i,$d) : enumerate($nj._densities)", "$pn=$d.get_parameter_names()", "$nj._densities[$i]=$d(**{_k0:_k1 for _k0,_k1 in kwargs.items() if _k0 in $pn})"]):
+            b, _ = unify(pats, S)
+            if b is not None:
+                break
+        rec = rec or any(t.startswith("for:") and t.endswith(": self._densities") for t, _ in S)
     chk.decide("C01-R3", f"{jd.qual}._condition/selection", b is not None, rec, site(repo, c), "each factor is conditioned on exactly the given variables it depends on",
                "per-factor selection of conditioning variables changed", c)
     for name, attr in (("dim", "dim"), ("geometry", "geometry")):
